@@ -12,7 +12,7 @@ CFG = {'assumptions': ['f64 inputs cross the boundary as bit patterns and are de
                  'std::collections::BinaryHeap is mirrored operation by operation (rebuild, push/sift_up, '
                  'pop/sift_down_to_bottom) for the pinned toolchain; the proved theorems do not depend on which '
                  'minimal entry is popped first'],
- 'count': {'quick': 20000, 'thorough': 800000},
+ 'count': {'quick': 150000, 'thorough': 5000000},
  'lean_files': ['GeoModel/Simplify.lean', 'GeoModel/Ops/C09.lean', 'GeoProofs/Lemmas/C09Rdp.lean', 'GeoProofs/Lemmas/C09Vw.lean'],
  'rule': 'random LineString / MultiLineString / Polygon / MultiPolygon (0-28 vertices per component; random grid '
          'points, zig-zags, collinear runs with bumps, back-tracking walks, forced repeats, wide 2^20 coordinates; '
@@ -38,7 +38,12 @@ MANIFEST = {'note': 'Trusted: Lean 4.33 kernel (axioms propext, Classical.choice
          'last, every dropped vertex is within eps of the retained segment replacing it (Within), simplify_idx lists '
          'exactly the kept positions, eps <= 0 is the identity and the size guard never lets a ring fall below four '
          'coordinates; the Visvalingam-Whyatt outputs are subsequences keeping both ends, index and coordinate '
-         'variants agree, eps <= 0 is the identity. The model (state-passing compute_rdp, the adjacency list, a '
+         'variants agree, eps <= 0 is the identity (first/last via the doubly-linked-list invariant of the adjacency '
+         'vector, for every order in which equal-area entries are popped); simplify_vw_preserve outputs are '
+         'subsequences keeping both ends and never fall below INITIAL_MIN coordinates (counter = number of live '
+         'vertices), so rings stay closed with at least four coordinates. Not proved: the exit invariant of '
+         'simplify_vw (every remaining interior vertex has area > eps) - it is checked on every implementation '
+         'output by the Lean checker instead. The model (state-passing compute_rdp, the adjacency list, a '
          'mirrored BinaryHeap, the segment multiset standing for the R-tree) is compared exactly (vertex lists and '
          "index lists) with the real API on random inputs; the property clauses are also evaluated on the "
          "implementation's own outputs."}
